@@ -17,7 +17,7 @@ RULE = ("case = one aggregate (1-2 phases in either order, 1-200 grains [3500 in
         "aggregate with more than one distinct orientation or two phases")
 ASSUMPTIONS = ["rounding tolerance 1e-9 * ||C||; phase fractions sum to 1 as the property requires"]
 TOLERANCES = {"all": "1e-9 * max|C|"}
-REQUIRED_MONITORS = ["equals_reference_average", "moduli_texture_independent", "corotates", "order_independent", "rejects_mismatch"]
+REQUIRED_MONITORS = ["equals_reference_average", "moduli_texture_independent", "corotates", "order_independent", "rejects_mismatch", "second_call_after_inplace_mutation"]
 
 VMAP = {(0, 0): 0, (1, 1): 1, (2, 2): 2, (1, 2): 3, (2, 1): 3, (0, 2): 4, (2, 0): 4, (0, 1): 5, (1, 0): 5}
 
@@ -165,6 +165,24 @@ def _aggregate(ctx, pydrex, case):
         C3 = np.asarray(mn.voigt_averages(minerals, [phases[0], other], [1.0, 0.0], S))
         e = max(float(np.abs(C2 - C).max()), float(np.abs(C3 - C).max()))
         ctx.check("order_independent", e <= tol, case, err=e, single_phase=True)
+    # no hidden state tied to object identity: modify the attributes of the *same* StiffnessTensors instance
+    # (the documented customisation route) and the textures of the *same* Mineral objects, call again
+    S.olivine = _spd6(rng)
+    S.enstatite = _spd6(rng)
+    for m_, ph in zip(minerals, phases):
+        newA = [gen.haar(rng, n) for _ in range(steps)]
+        for s_ in range(steps):
+            m_.orientations[s_] = newA[s_]
+        data[ph] = (newA, data[ph][1])
+    try:
+        C5 = np.asarray(mn.voigt_averages(minerals, list(phases), list(fracs), S))
+        T5 = {P.olivine: to4(S.olivine), P.enstatite: to4(S.enstatite)}
+        sc5 = max(float(np.abs(S.olivine).max()), float(np.abs(S.enstatite).max()))
+        e5 = max(float(np.abs(C5[s_] - ref_average([(fr, T5[ph], data[ph][0][s_], data[ph][1][s_]) for ph, fr in zip(phases, fracs)], T5)).max())
+                 for s_ in range(steps))
+        ctx.check("second_call_after_inplace_mutation", e5 <= 1e-9 * sc5, case, err=e5)
+    except Exception as e:
+        ctx.check("second_call_after_inplace_mutation", False, case, key=f"raises/{type(e).__name__}", exc=str(e)[:200])
     if len(ctx.samples) < 3 and nontriv:
         ctx.sample(case, K=float(KG(C[0])[0]), G=float(KG(C[0])[1]))
 
